@@ -534,6 +534,13 @@ func (hs *clientHandshakeStateTLS13) processServerHello() error {
 		c.sendAlert(alertIllegalParameter)
 		return errors.New("tls: server did not send a key share")
 	}
+	// [uTLS] SECTION BEGIN
+	if isGREASEUint16(uint16(hs.serverHello.serverShare.group)) {
+		// a GREASE entry of key_share is not an offer (RFC 8701, Section 3.1)
+		c.sendAlert(alertIllegalParameter)
+		return errors.New("tls: server selected unsupported group")
+	}
+	// [uTLS] SECTION END
 	if !slices.ContainsFunc(hs.hello.keyShares, func(ks keyShare) bool {
 		return ks.group == hs.serverHello.serverShare.group
 	}) {
